@@ -47,8 +47,8 @@ func init() {
 			names = append(names, m.BitString())
 		}
 		fmt.Fprintf(w, "/-- ds.Members() values and BitString() names -/\n")
-		fmt.Fprintf(w, "def statusMembers : List Nat := [%s]\n", strings.Join(bits, ", "))
-		fmt.Fprintf(w, "def statusNames : List String := %s\n", LeanStrList(names))
+		fmt.Fprintf(w, "def dsMemberValues : List Nat := [%s]\n", strings.Join(bits, ", "))
+		fmt.Fprintf(w, "def dsMemberNames : List String := %s\n", LeanStrList(names))
 		return nil
 	})
 }
